@@ -465,6 +465,8 @@ def gen_world(rs: int, P: dict) -> dict:
             rrm.choice(rc)["op"] = "remove"
         sc["reconfig"] = sorted(rc, key=lambda x: x["t"])
     place_crash_interventions(rs, sc, P)
+    if sub(rs, "late_fill").random() < P.get("late_fill", 0.06):
+        sc["sim"]["late_fill"] = True
     rmon = sub(rs, "monitor")
     if P.get("monitor", 0) and rmon.random() < P["monitor"] and last >= 1:
         # the operator's monitoring script: at the end of some periods it fetches the result tables and post-processes ITS frames in place
